@@ -346,14 +346,20 @@ def fixed_pair():
     b.npos = 1
     b.pool = [(('x',), {}), (('y',), {})]
     o = R.OutputSpec(0)
-    spec.inputs, spec.outputs = [a, b], [o]
+    c = R.InputSpec(2)
+    c.npos = 1
+    c.pool = [((1,), {}), ((2,), {}), ((True,), {})]
+    spec.inputs, spec.outputs = [a, b, c], [o]
     vals = {('in0', 0): ('value', 'a-one'), ('in0', 1): ('value', 'a-two'), ('in0', 2): ('value', 'a-true'),
-            ('in1', 0): ('value', ['b-x']), ('in1', 1): ('raise', R.D.ErrA)}
-    for i in (a, b):
+            ('in1', 0): ('value', ['b-x']), ('in1', 1): ('raise', R.D.ErrA),
+            ('in2', 0): ('value', 'legacy-one'), ('in2', 1): ('value', 'legacy-two'), ('in2', 2): ('value', 'legacy-true')}
+    for i in (a, b, c):
         for n, (args, kw) in enumerate(i.pool):
             for dep in ('d0', 'd1'):
                 i.outcomes[(R.resolved_alias(i, dep), R.model_captured(i, args, kw))] = vals[(i.alias, n)]
-    spec.body = [['in', 0, 0, 0, None], ['in', 1, 0, 0, None], ['in', 1, 1, 0, None], ['out', 0, (('sent',), {}), ('value', 'res1'), None]]
+    # recorded: in0(1), in1('x'), in1('y'), in2(1), in2(2), out0
+    spec.body = [['in', 0, 0, 0, None], ['in', 1, 0, 0, None], ['in', 1, 1, 0, None], ['in', 2, 0, 0, None], ['in', 2, 1, 0, None],
+                 ['out', 0, (('sent',), {}), ('value', 'res1'), None]]
     return spec
 
 
@@ -382,7 +388,13 @@ def table_row(tape, clock):
     ob.fallback_names = [] if fb == 'none' else ['never_there', '<old>']
     ob.run_original, ob.substitute = run_orig, subst
     oo.fail_on, oo.default = fail_on, default
-    opts['in'] = {'in0': oa, 'in1': ob}
+    oc = Opt()
+    # in0 falls back to the alias in2 (recorded with the same arguments): in0(1) is present under both -> own alias wins;
+    # in0(2) is present only under in2 -> the fallback answers; in0(True) is absent under both -> policy
+    if fb != 'none':
+        oa.fallback_kind = fb
+        oa.fallback_names = ['in2']
+    opts['in'] = {'in0': oa, 'in1': ob, 'in2': oc}
     opts['out'] = {'out0': oo}
     store = C.gen_store(tape, clock)
     run.probe('table_row')
@@ -455,6 +467,28 @@ def random_pair(tape, clock):
             spec2.body.append(['out', o_.idx, (('extra',), {}), ('value', 'never-recorded'), None])
     if tape.draw(8) == 7:
         spec2.body.append(['raise', R.D.ErrA])
+    # replayed code may ask for a discard or forced sampling (no recording is active in replay: both must be no-ops),
+    # and an output data handler may fail while the replayed call is captured: the call is still answered from the recording
+    if tape.draw(3) == 2:
+        for _ in range(1 + tape.draw(2)):
+            spec2.body.insert(tape.draw(len(spec2.body) + 1), [tape.choice(['discard', 'force'])])
+        run.probe('discard_or_force_called_in_replay')
+    if tape.draw(4) == 3:
+        outs = [st for st in spec2.body if st[0] == 'out' and spec2.outputs[st[1]].handler]
+        if outs:
+            tape.choice(outs)[4] = 'handler_raises'
+            run.probe('output_handler_fails_in_replay')
+    # an alias recorded by another input with the same arguments as a lower-priority fallback: the own alias must win
+    for i in spec2.inputs:
+        o = opts['in'][i.alias]
+        if o.alias is None and tape.draw(3) == 2:
+            twins = [j for j in spec.inputs if j.idx != i.idx and j.kind == i.kind and not j.resolver and not i.resolver and j.capture == i.capture
+                     and j.npos == i.npos and j.kwnames == i.kwnames]
+            if twins:
+                j = tape.choice(twins)
+                o.fallback_kind = tape.choice(['list', 'fn'])
+                o.fallback_names = [j.alias] + ([n for n in o.fallback_names if n != '<old>'])
+                run.probe('fallback_to_other_recorded_alias')
     store = C.gen_store(tape, clock)
     try:
         execute(run, tape, clock, spec, spec2, opts, bool(tape.draw(2)), 1 + tape.draw(3), store, 'random')
